@@ -52,6 +52,12 @@ def cases(tier, seed, prep=None):
     for i in range(n_random):
         out.append({"kind": "random", "seed": seed * 1000003 + 500000 + i, "ndrops": [1, 2, 3, 4, 5, 6],
                     "min_msgs": 1})
+    # other welcomes a conformant server may send (an empty one, one with a motd and a version hint), delegate API
+    for i in range(60 if tier == "quick" else 2000):
+        who = "ab"[i % 2]
+        out.append({"kind": "random", "seed": seed * 1000003 + 595000 + i, "ndrops": [1, 2, 3], "min_msgs": 1,
+                    "welcome": [{}, {}, {"motd": "hello"}, {"current_cli_version": "0.0.1", "motd": ""}][i % 4],
+                    "cfg_over": {"api_" + who: "delegate"}})
     return out
 
 
